@@ -118,15 +118,29 @@ import sys, os, json, random, hashlib
 sys.path.insert(0, "/verif/harness")
 import core
 from props import c15
-print(json.dumps(c15.e2e_summary(sys.argv[1], int(sys.argv[2]))))
+print(json.dumps(c15.e2e_summary(sys.argv[1], int(sys.argv[2]), sys.argv[3] == "1")))
 '''
 
 
-def e2e_summary(sseed, sched_seed):
+def e2e_summary(sseed, sched_seed, mixed=False):
     rng = random.Random(sseed)
     w = common.World(rng, rng.randint(1, 2))
     try:
         plans = {}
+        if mixed:
+            # InRelease and Release list the same files, sizes and hashes (validation passes) but only one of them says
+            # Acquire-By-Hash: yes: whichever the code lets decide, it must be the same one under every hash seed
+            from e2e import upstream
+            for repo in w.repos:
+                for cn, cs in repo["codenames"].items():
+                    cs["flavours"] = ["InRelease", "Release"]
+                    cs["serve_by_hash"] = True
+                    cs.pop("release_variant", None)
+                    rel = upstream.build_store(repo)[0][f"dists/{cn}/Release"][0].decode()
+                    if "Acquire-By-Hash: yes\n" in rel:
+                        cs["release_variant"] = rel.replace("Acquire-By-Hash: yes\n", "")
+                    else:
+                        cs["release_variant"] = rel.replace("Architectures:", "Acquire-By-Hash: yes\nArchitectures:", 1)
         stores = w.stores()
         for repo in w.repos:
             url = repo["url"]
@@ -141,19 +155,19 @@ def e2e_summary(sseed, sched_seed):
         w.destroy()
 
 
-def e2e_one(chk, sseed):
-    base = e2e_summary(sseed, 0)
-    replay = {"scenario_seed": sseed}
+def e2e_one(chk, sseed, mixed=False):
+    base = e2e_summary(sseed, 0, mixed)
+    replay = {"scenario_seed": sseed, "mixed_by_hash_flavours": mixed}
     for ss in (1, 17, 12345):
-        r = e2e_summary(sseed, ss)
+        r = e2e_summary(sseed, ss, mixed)
         if json.dumps(r, sort_keys=True) != json.dumps(base, sort_keys=True):
             diff = [k for k in base if json.dumps(base[k], sort_keys=True) != json.dumps(r[k], sort_keys=True)]
             chk.violation("schedule-dependent:e2e:" + diff[0], dict(replay, sched=ss), f"end-to-end result differs between schedules in {diff}")
             return
         chk.count("e2e_schedules_compared")
-    for hs in (7, 4242):
+    for hs in ((7, 4242) if not mixed else (7, 4242, 1, 99)):
         env = dict(os.environ, PYTHONHASHSEED=str(hs))
-        p = subprocess.run([sys.executable, "-c", SUB, sseed, "17"], capture_output=True, text=True, env=env, cwd="/verif/harness")
+        p = subprocess.run([sys.executable, "-c", SUB, sseed, "17", "1" if mixed else "0"], capture_output=True, text=True, env=env, cwd="/verif/harness")
         try:
             r = json.loads(p.stdout.strip().splitlines()[-1])
         except Exception:
@@ -178,6 +192,9 @@ def run(chk, tier, rng):
         chk.count("shared_target_scenarios_with_queue_over_128")
     for i in range(10 if tier == "quick" else 300):
         e2e_one(chk, f"C15e-{chk.seed}-{i}")
+    for i in range(4 if tier == "quick" else 60):
+        e2e_one(chk, f"C15x-{chk.seed}-{i}", mixed=True)
+        chk.count("e2e_worlds_with_release_flavours_disagreeing_on_by_hash")
     chk.assumptions += ["distinct queue entries never share a target path or URL (Disjoint); the excluded point is finding F-C05a",
                         "S9: slow-rate aborts and rate-limit delays are timing and therefore part of the fault plan"]
 
